@@ -59,6 +59,11 @@ TARGETS = {
         [lambda: (Meter ** n) * Second, lambda: Second * (Meter ** n), lambda: (Meter ** n) * Second],
         lambda: sum(1 for u in list(Unit._known.values()) if u.prefix is IdentityPrefix and dict(u.factors) == {Meter: n, Second: 1}),
         lambda: (Meter ** n) * Second),
+    # a base unit is interned by NAME (`_by_name`, filled by `__init__` -> `alias`): what unpickling does
+    "Unit(IdentityPrefix, {}, Length, name, symbol)": lambda n: (
+        [lambda: Unit(IdentityPrefix, {}, Length, "smoot%d" % n, "smt%s" % "".join("abcdefghij"[int(c)] for c in str(n)))] * 3,
+        lambda: sum(1 for u in list(Unit._known.values()) if "smoot%d" % n in getattr(u, "names", ())),
+        lambda: Unit(IdentityPrefix, {}, Length, "smoot%d" % n, "smt%s" % "".join("abcdefghij"[int(c)] for c in str(n)))),
     "Logarithm(n)": lambda n: (
         [lambda: Logarithm(n)] * 3,
         lambda: sum(1 for g in list(Logarithm._known.values()) if g.base == n),
@@ -106,9 +111,9 @@ def main():
             schedules.append((2, [1] * k + [0] * (L + 30) + [1] * (L + 30)))
         pairs = [(k, m) for k in range(1, L) for m in range(1, L)]
         rng.shuffle(pairs)
-        for k, m in pairs[: (12 if tier == "quick" else len(pairs))]:   # double preemption
+        for k, m in pairs[: (12 if tier == "quick" else 300)]:   # double preemption
             schedules.append((2, [0] * k + [1] * m + [0] * (L + 30) + [1] * (L + 30)))
-        for _ in range(10 if tier == "quick" else 150):                   # random, 2 and 3 threads
+        for _ in range(10 if tier == "quick" else 100):                   # random, 2 and 3 threads
             nt = rng.choice([2, 3])
             schedules.append((nt, [rng.randrange(nt) for _ in range(3 * L)]))
         for k in range(0, L + 1, 1 if tier != "quick" else 3):           # 3 threads: one stops at k
@@ -123,6 +128,8 @@ def main():
                                  "replay_cmd": "c20_explore.py --replay %r %d %s" % (target, nt, ",".join(map(str, out["executed"])))})
                 if len([f for f in failures if f["target"] == target]) >= 3:
                     break
+        if len(failures) >= 3:
+            break          # a replayable failing schedule is what is needed; no point in exploring on
     print(json.dumps({"explored": explored, "by_target": hist, "failures": failures[:20], "n_failures": len(failures)}))
     return 0
 
